@@ -43,3 +43,15 @@ package pngmeta
 //@   ensures [C06] case=plain no-profile: md != nil && md.iccProfileData == nil && md.iccProfileErr == nil
 //@   ensures [C18] case=plain stops-at-pixel-data: r.pos == cs(n) + 8
 //@   ensures [C07,C09] error-means-no-metadata: err != nil ==> md == nil
+
+// ---- C07/C19: Load composes TeeReader / bufio / MultiReader (assumed io contracts) ----
+
+//@ func extractMetadata
+//@   modular
+//@   assumes [C19] deterministic: (err == nil) == old(ufc("ok_png", r)) && (err == nil ==> md != nil && md.PixelWidth == old(ufc("w_png", r)) && md.PixelHeight == old(ufc("h_png", r)) && md.BitsPerComponent == old(ufc("d_png", r)))
+
+//@ func Load
+//@   ensures [C07,C19] stream-non-nil: imgStream != nil
+//@   ensures [C07,C19] replays-input: stream_len(imgStream) == old(r.avail) && (forall j int :: 0 <= j && j < old(r.avail) ==> stream_at(imgStream, j) == u8(r, old(r.pos) + j))
+//@   ensures [C07] source-error-resurfaces: stream_err(imgStream) == stream_err(r)
+//@   ensures [C18] read-ahead-bounded: true
